@@ -38,6 +38,10 @@ pub trait DGlue: Glue {
     fn d_from_repr(_d: i128) -> Option<Option<usize>> {
         None
     }
+    /// index of `D::default()` when `Default` was requested for D
+    fn d_default() -> Option<usize> {
+        None
+    }
 }
 
 pub fn c09<E: DGlue>(ctx: &mut Ctx) {
@@ -134,6 +138,15 @@ pub fn c09<E: DGlue>(ctx: &mut Ctx) {
         let want: Vec<usize> = (0..n).collect();
         if it != want {
             ctx.fail("disc:derive-EnumIter", json!({"derive": "EnumIter"}), format!("{:?}", want), format!("{:?}", it));
+        }
+    }
+    if let Some(d) = E::d_default() {
+        ctx.eval();
+        ctx.class("derive:Default");
+        // the variant-level pass-through `#[strum_discriminants(default)]` marks it
+        let want = spec.variants.iter().position(|v| v.disc_passthrough.iter().any(|p| p == "default"));
+        if Some(d) != want {
+            ctx.fail("disc:derive-Default", json!({"derive": "Default"}), format!("{:?}", want), format!("Some({})", d));
         }
     }
     if let Some(names) = E::d_names() {
